@@ -5,7 +5,7 @@ from . import common as C
 from . import lean as L
 
 TEXT_TIERS = {"quick": "quick", "thorough": "thorough"}
-PROG_TIERS = {"quick": dict(programs=120, seeds=1), "thorough": dict(programs=400, seeds=3)}
+PROG_TIERS = {"quick": dict(programs=120, seeds=1), "thorough": dict(programs=400, seeds=6)}
 
 
 def _build(tree, name, pkg, tags):
